@@ -376,6 +376,10 @@ def run_printed(printed, batch):
     path = _tmp_path()
     with open(path, 'w', encoding='utf-8') as f:
         f.write(render(printed))
+    # every listing of a worker process is written to the same path; with one fixed modification time this is a job
+    # re-run within the time-stamp granularity of the file system (listings of one structure have one size: numbers are
+    # printed at fixed width), so what is read must come from the file as it is now
+    os.utime(path, (1_000_000_000, 1_000_000_000))
     index = [ed['batch'] for ed in printed].index(batch)
     try:
         return observe(path, batch, index)
@@ -613,6 +617,7 @@ def ap3_check(file_spec, items, picks, ngroups, variant=0):
     from valjean.eponine.apollo3.hdf5_picker import Picker
     path = _tmp_path('tree.hdf')
     ap3_write(path, file_spec, picks, ngroups, variant)
+    os.utime(path, (1_000_000_000, 1_000_000_000))
     try:
         browser = Reader(path).to_browser()
     except Exception as ex:  # pylint: disable=broad-except
